@@ -12,7 +12,9 @@ use crate::spec::*;
 use crate::wire::{self, Build, Fti};
 use serde::{Deserialize, Serialize};
 use serde_json::Value;
+use std::cell::RefCell;
 use std::collections::{BTreeMap, BTreeSet};
+use std::rc::Rc;
 use std::path::Path;
 use std::time::Duration;
 
@@ -235,7 +237,32 @@ fn run_demux(sessions: &[SenderScn], recv: &RecvSpec, jitter_us: u64, cleanup_ev
         let mut rr = RecvRun::new(recv, ctx, monitor.clone(), false, label);
         flute::verif::clock::set_jitter(Duration::from_micros(jitter_us));
         let mut last_t = 0u64;
+        // listener churn (merged run): further listeners come and go between pushes, the OLDEST extra one is
+        // removed first (so a new registration follows the removal of a listener that is not the latest); each
+        // must see exactly the events the permanent listener sees while it is registered
+        struct Extra {
+            id: u64,
+            events: Rc<RefCell<Vec<SessEvent>>>,
+            main_from: usize,
+            main_to: Option<usize>,
+        }
+        let churn = label == "merged";
+        let mut extras: Vec<Extra> = Vec::new();
         for (n, (si, pi)) in order.iter().enumerate() {
+            if churn {
+                let main_len = rr.sess_events.borrow().len();
+                if n % 5 == 1 && extras.iter().filter(|x| x.main_to.is_none()).count() < 4 {
+                    let (l, ev) = Listener::new(ctx);
+                    let id = rr.recv.as_mut().unwrap().add_listener(l);
+                    extras.push(Extra { id, events: ev, main_from: main_len, main_to: None });
+                }
+                if n % 7 == 4 {
+                    if let Some(x) = extras.iter_mut().find(|x| x.main_to.is_none()) {
+                        rr.recv.as_mut().unwrap().remove_listener(x.id);
+                        x.main_to = Some(main_len);
+                    }
+                }
+            }
             // the clock and the cleanup schedule are those of the merged run, whichever sessions are pushed
             let (t, b) = &streams[*si][*pi];
             last_t = last_t.max(*t);
@@ -257,6 +284,32 @@ fn run_demux(sessions: &[SenderScn], recv: &RecvSpec, jitter_us: u64, cleanup_ev
         flute::verif::clock::set_jitter(Duration::ZERO);
         let ev = rr.sess_events.borrow().clone();
         check_listener(ctx, &ev, label, true);
+        for (k, x) in extras.iter().enumerate() {
+            let want: Vec<(bool, String)> = ev[x.main_from.min(ev.len())..x.main_to.unwrap_or(ev.len()).min(ev.len())].iter().map(|e| (e.open, format!("{:?}", e.key))).collect();
+            let got: Vec<(bool, String)> = x.events.borrow().iter().map(|e| (e.open, format!("{:?}", e.key))).collect();
+            if want != got {
+                violate(
+                    ctx,
+                    "C18/listener-missed-or-spurious-event",
+                    "-",
+                    format!(
+                        "{}: listener #{} (id {}, registered while the permanent listener saw its events {}..{}) saw {} events, the permanent listener {} in that interval; first difference at {:?}",
+                        label,
+                        k,
+                        x.id,
+                        x.main_from,
+                        x.main_to.map(|v| v.to_string()).unwrap_or_else(|| "end".into()),
+                        got.len(),
+                        want.len(),
+                        want.iter().zip(got.iter()).position(|(a, b)| a != b)
+                    ),
+                );
+                break;
+            }
+        }
+        if !extras.is_empty() {
+            ctx.borrow_mut().count_fault("listener-churn");
+        }
         (monitor, ev)
     };
     // merged order: seeded interleaving preserving the order inside each session
